@@ -7,7 +7,7 @@ use bump_scope::alloc::{AllocError, Allocator};
 use bump_scope::settings::{Bool, BumpSettings, MinimumAlignment, SupportedMinimumAlignment};
 use bump_scope::stats::AnyStats;
 use bump_scope::traits::{BumpAllocator, BumpAllocatorCore, BumpAllocatorCoreScope, BumpAllocatorScope, BumpAllocatorTyped, BumpAllocatorTypedScope, MutBumpAllocatorTypedScope};
-use bump_scope::{BaseAllocator, Bump, BumpScope, BumpScopeGuard, Checkpoint, MutBumpString, MutBumpVec, MutBumpVecRev, WithoutDealloc, WithoutShrink};
+use bump_scope::{BaseAllocator, Bump, BumpScope, BumpScopeGuard, BumpVec, Checkpoint, MutBumpString, MutBumpVec, MutBumpVecRev, WithoutDealloc, WithoutShrink};
 use std::alloc::Layout;
 use std::ptr::NonNull;
 
@@ -89,6 +89,10 @@ pub trait ScopeOps {
     /// alloc_iter_mut / alloc_iter_mut_rev with an iterator that claims `hint` elements and yields `n`:
     /// (address, bytes of the final slice)
     fn iter_mut(&mut self, esz: usize, eal: usize, rev: bool, hint: usize, n: usize, tags: &[u8], via: &str) -> Result<(usize, Vec<u8>), ()>;
+    /// alloc_fmt_mut / alloc_cstr_fmt_mut with a Display value that writes the given pieces: (address, bytes incl. NUL)
+    fn fmt_mut(&mut self, pieces: &[Vec<u8>], cstr: bool, via: &str) -> Result<(usize, Vec<u8>), ()>;
+    /// creates a growable vector (BumpVec<T, A>) with A = a shared reference to this handle, possibly wrapped
+    fn vec_new<'s>(&'s self, esz: usize, eal: usize, c0: usize, wrap: Wrap) -> Result<Box<dyn VecOps + 's>, ()>;
     /// creates an exclusive-borrow collection of elements of layout (esz, eal) with initial capacity c0
     fn prep<'s>(&'s mut self, esz: usize, eal: usize, rev: bool, via: &str, c0: usize) -> Result<Box<dyn PrepOps + 's>, ()>;
 }
@@ -98,11 +102,24 @@ pub trait PrepOps {
     /// push one element whose bytes are all `tag`
     fn push(&mut self, tag: u8) -> Result<(), ()>;
     fn reserve(&mut self, additional: usize) -> Result<(), ()>;
+    /// append the elements whose bytes are the given tags in one call (extend_from_slice_copy / push_str)
+    fn extend(&mut self, tags: &[u8]) -> Result<(), ()>;
     fn len(&self) -> usize;
     fn cap(&self) -> usize;
     fn snapshot(&self) -> Snap;
     /// finalise: (address, length in elements, bytes of the final slice)
     fn commit(self: Box<Self>) -> (usize, usize, Vec<u8>);
+}
+
+/// a Display value that writes its pieces one `write_str` at a time
+pub struct Pieces<'p>(pub &'p [Vec<u8>]);
+impl std::fmt::Display for Pieces<'_> {
+    fn fmt(&self, f: &mut std::fmt::Formatter<'_>) -> std::fmt::Result {
+        for pc in self.0 {
+            f.write_str(std::str::from_utf8(pc).unwrap())?;
+        }
+        Ok(())
+    }
 }
 
 /// an iterator whose size hint may lie
@@ -117,6 +134,86 @@ impl<T> Iterator for LyingIter<T> {
     }
     fn size_hint(&self) -> (usize, Option<usize>) {
         (self.hint, None)
+    }
+}
+
+/// A growable vector living in the arena: `BumpVec<T, A>`, a client of allocate_slice / grow / shrink_slice / deallocate.
+pub trait VecOps {
+    /// how: push | extend_copy | extend_clone | within_copy | within_clone (the first k elements again) | resize |
+    /// reserve | reserve_exact; `tags`: one byte value per new element
+    /// `panicking`: through the panicking twin of the method (only when the model expects success)
+    fn extend(&mut self, how: &str, k: usize, tags: &[u8], panicking: bool) -> Result<(), ()>;
+    fn shrink_to_fit(&mut self);
+    fn truncate(&mut self, n: usize);
+    /// virtual address of the buffer, 0 when the capacity is 0
+    fn addr(&self) -> usize;
+    fn len(&self) -> usize;
+    fn cap(&self) -> usize;
+    fn bytes(&self) -> Vec<u8>;
+    /// into_boxed_slice: (address, length in elements, bytes)
+    fn into_slice(self: Box<Self>) -> (usize, usize, Vec<u8>);
+}
+
+impl<'a, T: Elem, A: BumpAllocatorTypedScope<'a>> VecOps for BumpVec<T, A> {
+    fn extend(&mut self, how: &str, k: usize, tags: &[u8], panicking: bool) -> Result<(), ()> {
+        let vals: Vec<T> = tags.iter().map(|&t| T::make(t)).collect();
+        if panicking {
+            match how {
+                "push" => self.push(vals[0]),
+                "extend_copy" => self.extend_from_slice_copy(&vals),
+                "extend_clone" => self.extend_from_slice_clone(&vals),
+                "within_copy" => self.extend_from_within_copy(0..k),
+                "within_clone" => self.extend_from_within_clone(0..k),
+                "resize" => {
+                    let n = BumpVec::len(self) + k;
+                    self.resize(n, vals[0])
+                }
+                "reserve" => self.reserve(k),
+                "reserve_exact" => self.reserve_exact(k),
+                other => panic!("unknown vector operation {other}"),
+            }
+            return Ok(());
+        }
+        match how {
+            "push" => self.try_push(vals[0]),
+            "extend_copy" => self.try_extend_from_slice_copy(&vals),
+            "extend_clone" => self.try_extend_from_slice_clone(&vals),
+            "within_copy" => self.try_extend_from_within_copy(0..k),
+            "within_clone" => self.try_extend_from_within_clone(0..k),
+            "resize" => {
+                let n = BumpVec::len(self) + k;
+                self.try_resize(n, vals[0])
+            }
+            "reserve" => self.try_reserve(k),
+            "reserve_exact" => self.try_reserve_exact(k),
+            other => panic!("unknown vector operation {other}"),
+        }
+        .map_err(|_| ())
+    }
+    fn shrink_to_fit(&mut self) {
+        BumpVec::shrink_to_fit(self)
+    }
+    fn truncate(&mut self, n: usize) {
+        BumpVec::truncate(self, n)
+    }
+    fn addr(&self) -> usize {
+        if self.capacity() == 0 { 0 } else { v(NonNull::new(self.as_ptr() as *mut u8).unwrap()) }
+    }
+    fn len(&self) -> usize {
+        BumpVec::len(self)
+    }
+    fn cap(&self) -> usize {
+        self.capacity()
+    }
+    fn bytes(&self) -> Vec<u8> {
+        if self.capacity() == 0 { Vec::new() } else { slice_bytes(self.as_ptr(), BumpVec::len(self)) }
+    }
+    fn into_slice(self: Box<Self>) -> (usize, usize, Vec<u8>) {
+        let had_buffer = self.capacity() > 0;
+        let b = (*self).into_boxed_slice();
+        let len = b.len();
+        let ptr = b.into_raw();
+        if had_buffer { (v(ptr.cast::<u8>()), len, slice_bytes(ptr.cast::<T>().as_ptr(), len)) } else { (0, 0, Vec::new()) }
     }
 }
 
@@ -545,6 +642,23 @@ macro_rules! impl_scope_ops {
                 _ => panic!("unknown try_with family {fam}"),
             }
         }
+        fn fmt_mut(&mut self, pieces: &[Vec<u8>], cstr: bool, via: &str) -> Result<(usize, Vec<u8>), ()> {
+            let pv = Pieces(pieces);
+            let panicking = via == "panicking" || via == "typed";
+            if cstr {
+                let r = if panicking { Ok(self.alloc_cstr_fmt_mut(format_args!("{}", pv))) } else { self.try_alloc_cstr_fmt_mut(format_args!("{}", pv)).map_err(|_| ()) };
+                r.map(|c| {
+                    let b = c.to_bytes_with_nul();
+                    (v(NonNull::new(b.as_ptr() as *mut u8).unwrap()), b.to_vec())
+                })
+            } else {
+                let r = if panicking { Ok(self.alloc_fmt_mut(format_args!("{}", pv))) } else { self.try_alloc_fmt_mut(format_args!("{}", pv)).map_err(|_| ()) };
+                r.map(|b| {
+                    let (a, _, bytes) = boxed_out(b);
+                    (a, bytes)
+                })
+            }
+        }
         fn iter_mut(&mut self, esz: usize, eal: usize, rev: bool, hint: usize, _n: usize, tags: &[u8], via: &str) -> Result<(usize, Vec<u8>), ()> {
             macro_rules! go {
                 ($t:ty) => {{
@@ -643,6 +757,26 @@ where
         }
     }
 
+    fn vec_new<'s>(&'s self, esz: usize, eal: usize, c0: usize, wrap: Wrap) -> Result<Box<dyn VecOps + 's>, ()> {
+        let ts = self;
+        macro_rules! mk {
+            ($t:ty) => {
+                match wrap {
+                    Wrap::None => Ok(Box::new(BumpVec::<$t, _>::try_with_capacity_in(c0, ts).map_err(|_| ())?)),
+                    Wrap::Wd => Ok(Box::new(BumpVec::<$t, _>::try_with_capacity_in(c0, WithoutDealloc(ts)).map_err(|_| ())?)),
+                    Wrap::Ws => Ok(Box::new(BumpVec::<$t, _>::try_with_capacity_in(c0, WithoutShrink(ts)).map_err(|_| ())?)),
+                    Wrap::Both => panic!("no vector through both wrappers"),
+                }
+            };
+        }
+        match (esz, eal) {
+            (1, 1) => mk!(u8),
+            (8, 8) => mk!(u64),
+            (32, 32) => mk!(A32),
+            _ => panic!("no vector element type for layout ({esz}, {eal})"),
+        }
+    }
+
     fn prep<'s>(&'s mut self, esz: usize, eal: usize, rev: bool, via: &str, c0: usize) -> Result<Box<dyn PrepOps + 's>, ()> {
         if via == "dyn" {
             let mut d = DynPrep { h: &*self, esz, eal, rev, lo: 0, hi: 0, len: 0, cap: 0, tags: Vec::new() };
@@ -688,6 +822,10 @@ where
     fn reserve(&mut self, additional: usize) -> Result<(), ()> {
         self.try_reserve(additional).map_err(|_| ())
     }
+    fn extend(&mut self, tags: &[u8]) -> Result<(), ()> {
+        let vals: Vec<T> = tags.iter().map(|&t| T::make(t)).collect();
+        self.try_extend_from_slice_copy(&vals).map_err(|_| ())
+    }
     fn len(&self) -> usize {
         MutBumpVec::len(self)
     }
@@ -720,6 +858,11 @@ where
     fn reserve(&mut self, additional: usize) -> Result<(), ()> {
         self.try_reserve(additional).map_err(|_| ())
     }
+    fn extend(&mut self, tags: &[u8]) -> Result<(), ()> {
+        // the slice is prepended as a whole: reversed, it equals pushing the tags one by one
+        let vals: Vec<T> = tags.iter().rev().map(|&t| T::make(t)).collect();
+        self.try_extend_from_slice_copy(&vals).map_err(|_| ())
+    }
     fn len(&self) -> usize {
         MutBumpVecRev::len(self)
     }
@@ -751,6 +894,10 @@ where
     }
     fn reserve(&mut self, additional: usize) -> Result<(), ()> {
         self.try_reserve(additional).map_err(|_| ())
+    }
+    fn extend(&mut self, tags: &[u8]) -> Result<(), ()> {
+        let text: String = tags.iter().map(|&t| (t & 0x7f).max(1) as char).collect();
+        self.try_push_str(&text).map_err(|_| ())
     }
     fn len(&self) -> usize {
         MutBumpString::len(self)
@@ -830,6 +977,13 @@ impl<'s, B: ScopeOps + BumpAllocatorCore> PrepOps for DynPrep<'s, B> {
             let mnz = if self.esz == 1 { 8 } else if self.esz <= 1024 { 4 } else { 1 };
             let ncap = (2 * self.cap).max(self.len + additional).max(mnz);
             self.grow_to(ncap)?;
+        }
+        Ok(())
+    }
+    fn extend(&mut self, tags: &[u8]) -> Result<(), ()> {
+        PrepOps::reserve(self, tags.len())?;
+        for &t in tags {
+            self.push(t)?;
         }
         Ok(())
     }
@@ -1051,6 +1205,10 @@ where
     }
     fn prep<'s>(&'s mut self, esz: usize, eal: usize, rev: bool, via: &str, c0: usize) -> Result<Box<dyn PrepOps + 's>, ()> {
         self.as_mut_scope().prep(esz, eal, rev, via, c0)
+    }
+    fn vec_new<'s>(&'s self, esz: usize, eal: usize, c0: usize, wrap: Wrap) -> Result<Box<dyn VecOps + 's>, ()> {
+        // the same vector type as for a scope handle: BumpVec<T, &BumpScope> (through Bump::as_scope)
+        self.as_scope().vec_new(esz, eal, c0, wrap)
     }
     fn with_bmws(&mut self, n: usize, f: &mut dyn FnMut(&mut dyn ScopeOps)) {
         self.as_mut_scope().with_bmws(n, f)
